@@ -184,6 +184,17 @@ def run_case(case):
             else:
                 keep.append(w)
         wp = keep
+    if known.active("small-pole-circuit-reach"):
+        # open finding F-small-pole-reach: the compiler's pole table gives small poles a circuit reach of 9
+        # (game data: 7.5), pinned by test_power_planner.py. Call site: a circuit wire of length <= 9 with a
+        # small-electric-pole end.
+        keep = []
+        for w in wp:
+            if w[0] == "too-long" and w[1][1] < 5 and "small-electric-pole" in (w[2], w[3]) and w[4] <= 9.0 + 1e-9:
+                excluded["F-small-pole-reach"] = excluded.get("F-small-pole-reach", 0) + 1
+            else:
+                keep.append(w)
+        wp = keep
     for kind in sorted({w[0] for w in wp}):
         ex = [w for w in wp if w[0] == kind]
         tag = kind
